@@ -900,10 +900,14 @@ Proof.
   - eapply line_printed. exact (history_fragment _ _ _ _ _ H He Hu).
 Qed.
 
-(* a header whose decor is explicit (every parsed header) prints the same bytes wherever it stands *)
+(* a header whose decor is explicit text (every header of a parsed document after into_mut) prints
+   the same bytes wherever it stands *)
+Definition explicit_raw (o : option raw) : bool :=
+  match o with Some REmpty | Some (RExplicit _) => true | _ => false end.
 Lemma header_text_explicit hp d arr first first' :
-  d_prefix d <> None -> d_suffix d <> None -> header_text hp d arr first = header_text hp d arr first'.
+  explicit_raw (d_prefix d) = true -> explicit_raw (d_suffix d) = true ->
+  header_text hp d arr first = header_text hp d arr first'.
 Proof.
   intros Hp Hs. unfold header_text, decor_prefix, decor_suffix.
-  destruct (d_prefix d); [|contradiction]. destruct (d_suffix d); [|contradiction]. reflexivity.
+  destruct (d_prefix d) as [[| |]|]; try discriminate; destruct (d_suffix d) as [[| |]|]; try discriminate; reflexivity.
 Qed.
